@@ -519,7 +519,7 @@ def get_sqrtprec_from_prec(dim, prec, sparse_flag):
                     raise ValueError("The input matrix must be symmetric positive semidefinite.")                    
                 d = s[s > eps]
                 
-                U = np.multiply(u, np.sqrt(s))
+                U = np.multiply(u, np.sqrt(np.where(s > eps, s, 0))) # eigenvalues below eps are rounding errors of zero (possibly negative)
                 sqrtprec = U @ np.diag(np.sign(np.diag(U))) #ensure sign is deterministic (scipy gives non-deterministic result)
                 sqrtprec = U.T # We want to have the columns as the eigenvectors
                 
